@@ -255,6 +255,53 @@ def before(body, a, b):
     return bb in body.reachable(ba)
 
 
+def r09_5(prog, rep, RULE=RULE):
+    """"every sequence whose calls all succeeded ends in a readable archive": the reader finds the blocks of a file through the offsets of its runs, and the
+    writer opens a new run whenever the block it is about to write does not follow a block of the same file. That test is `id != self.current_id`, so
+    `current_id` must name the file of the block written last: on every path of a writer method to a block write, either `current_id` was just compared
+    equal to the block's id or it is stored. (A method that writes a block and leaves `current_id` naming another file makes the *next* block of that
+    other file look contiguous: no offset is recorded for it and the file cannot be read back.)"""
+    from ..inline import inlined_body
+    mla = prog.crates['mla']
+    n = 0
+    for name in ('start_file', 'append_file_content', 'end_file'):
+        bs = [b for b in mla.bodies if b.impl_adt == 'ArchiveWriter' and b.name == name and b.kind != 'Closure']
+        if len(bs) != 1:
+            rep.ob(RULE, False, RULE + '|anchor|ArchiveWriter::%s' % name, 'method not found')
+            continue
+        inl = inlined_body(prog, bs[0], skip=('dump',))
+        dumps = [b for b in inl.calls() if cnorm(b.term).endswith('ArchiveFileBlock::dump')]
+        stores = [bl.idx for bl in inl.blocks if not bl.cleanup for st in bl.stmts if st.kind == 'assign' and place_fields(st.place)[-1:] == ['current_id']]
+        eq_edges = []
+        for bl in inl.blocks:
+            si = switch_info(prog, inl, bl.idx)
+            if not si or si['kind'] != 'bool':
+                continue
+            e = expr_of(inl, si['cond'])
+            if e[0] == 'binop' and e[1] in ('Eq', 'Ne') and any(x[0] == 'place' and place_fields(x[1])[-1:] == ['current_id'] for x in (e[2], e[3])):
+                eq_edges.append((bl.idx, si['true'] if e[1] == 'Eq' else si['false']))
+                continue
+            # `self.current_id != Some(id)`: a PartialEq call on the field itself (not on the result of take() / replace(), which change it)
+            r = branch_on_call(prog, inl, bl.idx)
+            if r and r[1].cmethod in ('eq', 'ne') and len(r[1].args) == 2:
+                for a_ in r[1].args:
+                    ea = deref_expr(inl, expr_of(inl, a_))
+                    if ea[0] in ('ref', 'place') and place_fields(ea[1])[-1:] == ['current_id']:
+                        eq_edges.append((bl.idx, r[2]))
+        if not dumps:
+            rep.ob(RULE, False, RULE + '|%s|anchor' % bs[0].nkey, 'no block write found in %s' % name, bs[0].loc())
+            continue
+        rep.fn(bs[0])
+        n += 1
+        r = reachable_vs(inl, 0, removed_blocks=stores, removed_edges=eq_edges)
+        bad = [inl.loc(d.idx) for d in dumps if d.idx in r]
+        rep.ob(RULE, not bad, RULE + '|%s|current_id-names-the-file-of-the-block-written' % bs[0].nkey,
+               'every block write follows `current_id == id` or a store to current_id' if not bad else
+               'a block is written (%s) on a path that neither found `current_id` equal to the block\'s file nor updated it: the next block of the file that was current gets '
+               'no offset and cannot be read back' % ', '.join(bad), bs[0].loc())
+    rep.floor(RULE, n, 3, 'writer methods that write blocks')
+
+
 def run(prog, rep, tier):
     mla = prog.crates['mla']
     entries = []
@@ -395,6 +442,9 @@ def run(prog, rep, tier):
             rep.ob('R09.3', ok, key, 'io::copy count compared with the announced length; mismatch returns Err' if ok else
                    'the number of bytes copied from the source is never compared with the announced length: a source that ends early is reported as success and yields an unreadable archive',
                    dump.loc(c.idx))
+
+    # ---------------- R09.5 run bookkeeping: current_id names the file of the block written last
+    r09_5(prog, rep)
 
     # ---------------- R09.4 refusals surface
     sw = one_body(prog, rep, 'R09.4', 'mla', adt='helpers::StreamWriter', name='write', trait='std::io::Write')
